@@ -20,6 +20,14 @@ def around(be, enc):
     else:
         c, n = dec_dec(enc)
         out += [enc_dec(c + 1, n), enc_dec(c - 1, n)]
+        # ... and at the full resolution of the type: the value +- a few units of the 18th fractional digit (a
+        # quotient by the scale then differs from 1 by less than the rounding of the division)
+        if n < 18:
+            full = c * 10 ** (18 - n)
+            for k in (1, 4, 5, 6):
+                for cc in (full + k, full - k):
+                    if abs(cc) < 2 ** 127:
+                        out.append(enc_dec(cc, 18))
     return out
 
 
